@@ -303,7 +303,7 @@ func genLayout(t *rapid.T) LayoutCase {
 		rapid.Int64Range(1, 8),
 		rapid.Int64Range(1, 300),
 		rapid.Int64Range(1, maxBlob+2),
-		rapid.SampledFrom([]int64{1 << 10, 1 << 15, 1 << 16, 1 << 20, 1<<31 - 1, 1 << 31, 1 << 32, 1 << 40}),
+		rapid.SampledFrom([]int64{1 << 10, 1 << 15, 1 << 16, 1 << 20, 1<<31 - 1, 1 << 31, 1 << 32, 1 << 40, 1 << 62, 1<<63 - 4096, 1<<63 - 2, 1<<63 - 1}),
 	).Draw(t, "pl")
 	pl := c.PieceLen
 	var sizes []*rapid.Generator[int]
@@ -764,7 +764,7 @@ func runTable(c TableCase) pbt.Verdict {
 func TestProp(t *testing.T) {
 	pbt.Main(t, pbt.Spec{
 		ID: "C02",
-		Rule: "layout: piece length from {1..8, 1..300, 1..64Ki+2, powers of two up to 2^40}, size from {0,1,2, k*pl-1, k*pl, k*pl+1, random <= 64 KiB}, content random / zeros / periodic with period pl or pl+1 (derived from a seed), stream delivered by 7 reader behaviours (plain, 1-byte, half, data+EOF, generated chunk sizes, no WriterTo, failing); " +
+		Rule: "layout: piece length from {1..8, 1..300, 1..64Ki+2, powers of two up to 2^40, 2^62, 2^63-4096, 2^63-2, 2^63-1 (arithmetic on the piece length must not wrap)}, size from {0,1,2, k*pl-1, k*pl, k*pl+1, random <= 64 KiB}, content random / zeros / periodic with period pl or pl+1 (derived from a seed), stream delivered by 7 reader behaviours (plain, 1-byte, half, data+EOF, generated chunk sizes, no WriterTo, failing); " +
 			"compared: NewMetaInfoFromBytes and NewMetaInfo(stream) each against an independent reference split (ceil division, crc32.ChecksumIEEE over sub-slices: Length, NumPieces, every GetPieceLength/GetPieceSum, sum of lengths), with each other (info hash, Serialize bytes), and through Serialize->DeserializeMetaInfo and metadata.TorrentMeta; a failing reader must yield an error; " +
 			"non-trivial = size 0, or more than one piece, or size an exact multiple of the piece length. " +
 			"table: 1-6 distinct thresholds (0, small, 2^e+-1 up to 2^40) with positive piece lengths, 1-8 query sizes biased to threshold-1/threshold/threshold+1, one blob <= 16 KiB written to a real CAStore and run through Generator.Generate; compared: GetPieceLength(size) with the entry of the largest threshold <= size (no assertion when none), stored metainfo with the reference split for that piece length; non-trivial = table has >1 entry and a query or the blob sits on or just below a threshold. Distinct by case hash.",
